@@ -264,6 +264,8 @@ def check_lcmv(run, A):
 
 def check(run):
     A = run.A
+    from ..opt import check_axisless_squeeze
+    check_axisless_squeeze(run, A, ('pb_bss.extraction.beamformer', 'pb_bss.math.solve'))
     run.explanation = (
         'Operand roles of every solve / stable_solve / trace / column selection of the MVDR, Souden-MVDR, WMWF and LCMV designs, the sesquilinear structure of their inner '
         'products and quadratic forms, the arg-max reference-channel selection with target over noise, and the NumPy >= 2 vector semantics of linalg.solve (right-hand sides must be '
